@@ -9,11 +9,14 @@ ID = "C18"
 _SCRATCH = os.path.join(core.RUNS_ROOT, ID, "files")
 STAGES = [
     # the deciding variant: ASan + UBSan + float-cast-overflow, assertions on
-    Stage("gridgen-asan", "p18_gridgen", "asan", {"quick": 900, "thorough": 48000},
+    Stage("gridgen-asan", "p18_gridgen", "asan", {"quick": 900, "thorough": 60000},
           args={"scratch": _SCRATCH, "setup_nodes": 2500}, timeout_per_case=120.0),
     # -O2 build, assertions on: other code generation, larger setup() grids
-    Stage("gridgen-plain", "p18_gridgen", "plain", {"quick": 300, "thorough": 12000},
-          args={"scratch": _SCRATCH, "setup_nodes": 20000}, timeout_per_case=120.0, offset=10000000),
+    Stage("gridgen-plain", "p18_gridgen", "plain", {"quick": 300, "thorough": 20000},
+          args={"scratch": _SCRATCH, "setup_nodes": 5000}, timeout_per_case=120.0, offset=10000000,
+          # glibc heap consistency checks: a write before/after a heap block aborts at the next free() of that block
+          # instead of corrupting the measuring process silently
+          env={"MALLOC_CHECK_": "3", "MALLOC_PERTURB_": "165"}),
 ]
 
 # Numerical sub-checks are multiples of the unit round-off (2^-52) of the magnitude of the compared quantity.
@@ -39,7 +42,7 @@ THRESHOLDS = {
     # --- files
     "roundtrip_loads": 0.5,
     "roundtrip_same_shape": 0.5,
-    "roundtrip_excess_error": 64.0,          # (|loaded - written| - 0.5*10^-precision)_+ / (eps max(|x|, 10^-precision))
+    "roundtrip_excess_error": 128.0,          # (|loaded - written| - 0.5*10^-precision)_+ / (eps max(|x|, 10^-precision))
     "damaged_file_grid_is_valid": 0.5,
 }
 MIN_NONTRIVIAL = {"quick": 60, "thorough": 250}
